@@ -351,3 +351,73 @@ pub fn prefill(rng: &mut Rng) -> Vec<u8> {
 pub fn err_kind(rng: &mut Rng) -> crate::sink::ErrKind {
     *rng.pick(&INJECTABLE)
 }
+
+/// A legal task whose FST has at least one node with more than 32
+/// transitions (the transition index, the 256-transition escape), whose
+/// prefix key is itself a key with a large value about half of the time
+/// (so that the wide node carries a final output).
+pub fn wide_task(rng: &mut Rng, small: bool) -> (TaskSpec, Vec<Item>) {
+    let valued = rng.chance(3, 4);
+    let fr = front(rng, valued);
+    let fan = match if small { 7 } else { rng.below(8) } {
+        0 => 256usize,
+        1 => 64,
+        2 => 255,
+        _ => rng.urange(33, if small { 38 } else { 44 }),
+    };
+    let prefix: Vec<u8> = match rng.below(3) {
+        0 => vec![],
+        1 => vec![*rng.pick(b"ab")],
+        _ => vec![*rng.pick(b"ab"), *rng.pick(b"xy")],
+    };
+    let start = if fan >= 256 { 0 } else { rng.usize_below(256 - fan + 1) };
+    let mut set: BTreeMap<Vec<u8>, ()> = BTreeMap::new();
+    if rng.chance(1, 2) {
+        set.insert(prefix.clone(), ());
+    }
+    let tail_mode = rng.below(3);
+    for b in start..start + fan {
+        let mut k = prefix.clone();
+        k.push(b as u8);
+        match tail_mode {
+            0 => {}
+            1 => k.push(b'z'),
+            _ => {
+                if rng.chance(1, 2) {
+                    k.push(*rng.pick(b"qz"));
+                }
+            }
+        }
+        set.insert(k, ());
+    }
+    for _ in 0..rng.urange(0, 4) {
+        let l = rng.urange(0, 3);
+        let k: Vec<u8> = (0..l).map(|_| *rng.pick(b"abxyz")).collect();
+        set.insert(k, ());
+    }
+    let ks: Vec<Vec<u8>> = set.into_keys().collect();
+    let style = if valued {
+        *rng.pick(&[
+            ValueStyle::Decreasing,
+            ValueStyle::Boundary,
+            ValueStyle::Random,
+            ValueStyle::Increasing,
+            ValueStyle::Constant,
+        ])
+    } else {
+        ValueStyle::Zero
+    };
+    let vs = assign_values(rng, ks.len(), style);
+    let items: Vec<Item> = ks.into_iter().zip(vs).collect();
+    let ops = group_ops(rng, fr, &items);
+    (TaskSpec { front: fr, registry: geometry(rng), ops, fin: fin(rng) }, items)
+}
+
+/// Small task for sweeps: mostly <= `max_keys` keys, sometimes a wide one.
+pub fn sweep_task(rng: &mut Rng, max_keys: usize, wide_1_in: u64) -> (TaskSpec, Vec<Item>) {
+    if rng.chance(1, wide_1_in) {
+        wide_task(rng, true)
+    } else {
+        legal_task(rng, max_keys)
+    }
+}
